@@ -276,18 +276,18 @@ func printNode(n *Node) string {
 var identPool = []string{"x", "y", "z", "hp", "hp2", "_v", "$g", "wis", "str", "gold_1", "力量", "敏捷", "体质加值", "ñu", "зел", "Ω1", "ｘ"}
 
 type gen struct {
-	t      *rapid.T
-	vars   []VarDef
-	budget int // remaining leaves
-	noDC   bool
-	noWS   bool
-	noDefault bool // no default-sides dice
-	avoid  func(string) bool // open findings that ask the generator to stay away from a feature
-	feats  map[string]int
-	nDice  int
-	nOps   int
-	nVars  int
-	nNest  int
+	t         *rapid.T
+	vars      []VarDef
+	budget    int // remaining leaves
+	noDC      bool
+	noWS      bool
+	noDefault bool              // no default-sides dice
+	avoid     func(string) bool // open findings that ask the generator to stay away from a feature
+	feats     map[string]int
+	nDice     int
+	nOps      int
+	nVars     int
+	nNest     int
 }
 
 func (g *gen) feat(s string) { g.feats[s]++ }
@@ -495,9 +495,9 @@ func (g *gen) genExpr(depth int) *Node {
 func (g *gen) genPrimary(depth int) *Node {
 	g.budget--
 	switch k := g.intn(0, 99, "pkind"); {
-	case k < 28:
+	case k < 22:
 		return g.genLit()
-	case k < 45:
+	case k < 38:
 		g.nVars++
 		v := pickOf(g.t, g.vars, "var")
 		if v.Expr != "" {
@@ -508,7 +508,7 @@ func (g *gen) genPrimary(depth int) *Node {
 			g.feat("multibyte-ident")
 		}
 		return &Node{K: "var", S: v.Name}
-	case k < 50 && depth > 0:
+	case k < 43 && depth > 0:
 		g.feat("paren")
 		return g.par(g.genExpr(depth - 1))
 	}
